@@ -200,6 +200,8 @@ def gen_column(rng, kind, n, name=None, nulls=None):
     col = {'name': name if name is not None else rng.choice(NAMES), 'kind': kind, 'values': vals, 'nulls': nulls}
     if kind == 'cat' and rng.random() < 0.4:
         col['extra_categories'] = ['unused1', 'zzz']
+    if kind == 'str_obj' and sum(1 for v in vals if v is None) >= 2 and rng.random() < 0.4:
+        col['null_kinds'] = 'mixed'
     return col
 
 
@@ -249,6 +251,15 @@ def build_series(col):
     if kind == 'boolean':
         return pd.Series([pd.NA if v is None else v for v in vals], dtype='boolean')
     if kind == 'str_obj':
+        if col.get('null_kinds') == 'mixed':
+            # missing cells spelled in two ways within one object column (None where assigned, NaN where loaded): both are nulls
+            spell = [None, np.nan]
+            k = [0]
+
+            def nul():
+                k[0] += 1
+                return spell[k[0] % len(spell)]
+            return pd.Series([nul() if v is None else v for v in vals], dtype=object)
         return pd.Series(list(vals), dtype=object)
     if kind == 'str_pd3':
         return pd.Series(list(vals), dtype='str')
